@@ -10,7 +10,8 @@ Inductive behaviour :=
 | BEnv                                   (* returns its bound arguments *)
 | BRet (v : json)
 | BRpc (code : Z) (msg : string) (data : option json)    (* raises JsonRpcError(code, msg, data) *)
-| BExc (tag : nat).                      (* raises some other exception carrying a marker *)
+| BExc (tag : nat)                       (* raises some other exception carrying a marker *)
+| BRpcArgs.                              (* sets code / message / data of ONE long-lived error object from its arguments and raises it *)
 Record mdesc := { md_name : string; md_sig : sig; md_ctx : ctxmode; md_body : behaviour }.
 
 Inductive mwdesc :=
@@ -35,8 +36,16 @@ Definition env_json (e : env) : json := JArr (map (fun ns => JArr [JStr (fst ns)
 Definition to_pparams (p : params) : pparams :=
   match p with PNone => PPos [] | PList l => PPos l | PDict d => PKw d end.
 
+(* the protocol error a BRpcArgs body raises: its fields are the call's own arguments *)
+Definition args_error (e : env) : option rpc_error :=
+  match get "code" e, get "message" e with
+  | Some (Given (JInt c)), Some (Given (JStr m)) =>
+      Some {| e_code := c; e_msg := m; e_data := match get "data" e with Some (Given v) => Some v | _ => None end;
+              e_class := "JsonRpcError" |}
+  | _, _ => None end.
 Definition body_of (b : behaviour) (e : env) : outcome :=
   match b with
+  | BRpcArgs => match args_error e with Some err => ORpc err | None => OExc 99 end
   | BEnv => ORet (env_json e)
   | BRet v => ORet v
   | BRpc c m d => ORpc {| e_code := c; e_msg := m; e_data := d; e_class := "JsonRpcError" |}
